@@ -231,6 +231,45 @@ def bounds_in_region(lin, region):
     return None, None
 
 
+class Record:
+    """value of a namedtuple / plain tuple built from arithmetic values: positional items, optional field names"""
+
+    def __init__(self, items, names=None):
+        self.items, self.names = list(items), list(names) if names else None
+
+    def field(self, name):
+        if self.names and name in self.names and self.names.index(name) < len(self.items):
+            return self.items[self.names.index(name)]
+        return None
+
+
+def record_fields(facts, name):
+    """Field names of a module-level `Name = namedtuple('Name', [...] | 'a b')` (collections / typing spelling), or of a
+    `class Name(NamedTuple)` with annotated fields; None when `name` is something else."""
+    st = facts.assign_nodes.get(name)
+    if isinstance(st, ast.Assign) and isinstance(st.value, ast.Call) and dotted(st.value.func) in ('namedtuple', 'collections.namedtuple') \
+            and len(st.value.args) >= 2:
+        try:
+            spec = fold(st.value.args[1])
+        except NotConstant:
+            return None
+        if isinstance(spec, str):
+            spec = spec.replace(',', ' ').split()
+        if isinstance(spec, (list, tuple)) and all(isinstance(x, str) for x in spec):
+            return list(spec)
+        return None
+    ci = facts.classes.get(name)
+    if ci is not None and any(b in ('NamedTuple', 'typing.NamedTuple') for b in ci.bases):
+        fields = []
+        for b in ci.node.body:
+            if isinstance(b, ast.AnnAssign) and isinstance(b.target, ast.Name):
+                fields.append(b.target.id)
+            elif isinstance(b, ast.Assign) and len(b.targets) == 1 and isinstance(b.targets[0], ast.Name) and not b.targets[0].id.startswith('_'):
+                fields.append(b.targets[0].id)
+        return fields or None
+    return None
+
+
 class Interp:
     def __init__(self, facts):
         self.facts = facts
@@ -357,6 +396,13 @@ class Interp:
                 return self.ev(st.value, env, fname, depth)
             if isinstance(st, ast.Assign) and len(st.targets) == 1 and isinstance(st.targets[0], ast.Name):
                 env[st.targets[0].id] = self.ev(st.value, env, fname, depth)
+            elif isinstance(st, ast.Assign) and len(st.targets) == 1 and isinstance(st.targets[0], (ast.Tuple, ast.List)) \
+                    and all(isinstance(t, ast.Name) for t in st.targets[0].elts):
+                v = self.ev(st.value, env, fname, depth)
+                if not (isinstance(v, Record) and len(v.items) == len(st.targets[0].elts)):
+                    raise Unsupported('{}: statement form {}'.format(fname, unparse(st).split('\n')[0]))
+                for t, x in zip(st.targets[0].elts, v.items):
+                    env[t.id] = x
             elif isinstance(st, ast.AugAssign) and isinstance(st.target, ast.Name):
                 fake = ast.BinOp(left=ast.Name(id=st.target.id, ctx=ast.Load()), op=st.op, right=st.value)
                 env[st.target.id] = self.ev(fake, env, fname, depth)
@@ -481,6 +527,27 @@ class Interp:
             hooked = self.call_hook(node)
             if hooked is not None:
                 return hooked
+        if isinstance(node, ast.Tuple) and not any(isinstance(e, ast.Starred) for e in node.elts):
+            return Record([self.ev(e, env, fname, depth) for e in node.elts])
+        if isinstance(node, ast.Call) and isinstance(node.func, ast.Name) and node.func.id not in env and node.func.id not in self.facts.funcs:
+            names = record_fields(self.facts, node.func.id)
+            if names is not None and not any(isinstance(a, ast.Starred) for a in node.args) and all(k.arg in names for k in node.keywords):
+                # a result record: HiLo(hi, lo) - both halves computed by one helper
+                items = [self.ev(a, env, fname, depth) for a in node.args]
+                kw = {k.arg: self.ev(k.value, env, fname, depth) for k in node.keywords}
+                if len(items) + len(kw) == len(names) and not any(n in kw for n in names[:len(items)]):
+                    return Record(items + [kw[n] for n in names[len(items):]], names)
+        if isinstance(node, ast.Attribute):
+            base = self.ev(node.value, env, fname, depth)
+            if isinstance(base, Record) and base.field(node.attr) is not None:
+                return base.field(node.attr)
+            return self._unsup(fname, node)
+        if isinstance(node, ast.Subscript) and not isinstance(node.slice, ast.Slice):
+            base = self.ev(node.value, env, fname, depth)
+            idx = self.ev(node.slice, env, fname, depth)
+            if isinstance(base, Record) and isinstance(idx, int) and -len(base.items) <= idx < len(base.items):
+                return base.items[idx]
+            return self._unsup(fname, node)
         if isinstance(node, ast.Call) and isinstance(node.func, ast.Name) and node.func.id in self.facts.funcs:
             if depth > 4:
                 raise Unsupported('inlining depth')
@@ -594,6 +661,9 @@ def compare_bit(left, op, right):
 
 
 def join_on_bit(atom, t, f, fname):
+    if isinstance(t, Record) and isinstance(f, Record) and len(t.items) == len(f.items) and t.names == f.names:
+        return Record([join_on_bit(atom, Lin({}, x) if isinstance(x, int) else x, Lin({}, y) if isinstance(y, int) else y, fname)
+                       for x, y in zip(t.items, f.items)], t.names)
     if type(t) != type(f):
         raise Unsupported('{}: arms of a bit test produce different kinds of value'.format(fname))
     if isinstance(t, Lin):
@@ -673,6 +743,13 @@ class Concrete:
                 raise _Return(self.ev(st.value, env, depth) if st.value is not None else None)
             if isinstance(st, ast.Assign) and len(st.targets) == 1 and isinstance(st.targets[0], ast.Name):
                 env[st.targets[0].id] = self.ev(st.value, env, depth)
+            elif isinstance(st, ast.Assign) and len(st.targets) == 1 and isinstance(st.targets[0], (ast.Tuple, ast.List)) \
+                    and all(isinstance(t, ast.Name) for t in st.targets[0].elts):
+                v = self.ev(st.value, env, depth)
+                if not (isinstance(v, Record) and len(v.items) == len(st.targets[0].elts)):
+                    raise NotConcrete('unpacking')
+                for t, x in zip(st.targets[0].elts, v.items):
+                    env[t.id] = x
             elif isinstance(st, ast.AugAssign) and isinstance(st.target, ast.Name):
                 env[st.target.id] = self.binop(type(st.op), self.ev(ast.Name(id=st.target.id, ctx=ast.Load()), env, depth),
                                                self.ev(st.value, env, depth))
@@ -750,11 +827,30 @@ class Concrete:
             if dotted(node.value.func).endswith('c_int32') and v & 0x80000000:
                 v -= 1 << 32
             return v
+        if isinstance(node, ast.Tuple) and not any(isinstance(e, ast.Starred) for e in node.elts):
+            return Record([self.ev(e, env, depth) for e in node.elts])
+        if isinstance(node, ast.Attribute):
+            base = self.ev(node.value, env, depth)
+            if isinstance(base, Record) and base.field(node.attr) is not None:
+                return base.field(node.attr)
+            raise NotConcrete('attribute {}'.format(node.attr))
+        if isinstance(node, ast.Subscript) and not isinstance(node.slice, ast.Slice):
+            base, idx = self.ev(node.value, env, depth), self.ev(node.slice, env, depth)
+            if isinstance(base, Record) and isinstance(idx, int) and -len(base.items) <= idx < len(base.items):
+                return base.items[idx]
+            raise NotConcrete('subscript')
         if isinstance(node, ast.Call):
             if self.call_hook is not None:
                 r = self.call_hook(node, env)
                 if r is not None:
                     return r
+            if isinstance(node.func, ast.Name) and node.func.id not in self.facts.funcs and node.func.id not in env:
+                names = record_fields(self.facts, node.func.id)
+                if names is not None and not any(isinstance(x, ast.Starred) for x in node.args) and all(k.arg in names for k in node.keywords):
+                    items = [self.ev(x, env, depth) for x in node.args]
+                    kw = {k.arg: self.ev(k.value, env, depth) for k in node.keywords}
+                    if len(items) + len(kw) == len(names) and not any(n in kw for n in names[:len(items)]):
+                        return Record(items + [kw[n] for n in names[len(items):]], names)
             if isinstance(node.func, ast.Name) and node.func.id in self.facts.funcs:
                 if depth >= self.max_depth:
                     raise NotConcrete('call depth')
